@@ -303,6 +303,10 @@ func (i *insertExecutor) getPkIndex(InsertStmt *ast.InsertStmt, meta types.Table
 		for paramIdx := 0; paramIdx < insertColumnsSize; paramIdx++ {
 			sqlColumnName := InsertStmt.Columns[paramIdx].Name.O
 			if i.containPK(sqlColumnName, meta) {
+				// under the name the catalogue gives the key column: that is how the values are looked up
+				if columnMeta, ok := meta.GetColumnMeta(DelEscape(sqlColumnName, types.DBTypeMySQL)); ok {
+					sqlColumnName = columnMeta.ColumnName
+				}
 				pkIndexMap[sqlColumnName] = paramIdx
 			}
 		}
